@@ -165,6 +165,7 @@ def classify_marker(ctx, ci, fi, regex):
     w = repo.walker(inline_depth=ctx.depth, max_paths=ctx.max_paths, split_ifexp=True)
     w.strip_asserts = True          # a "delimiter found" test written as an assert is no test under python -O
     w.unbound_raises = True
+    w.const_heap = dict(repo.ctor_consts(ci))      # e.g. one "fate of the delimiter" constant derived from the two flags
     entry = strategy_entry(repo, ci, fi, (lambda g: g == "hasattr(self.until_marker, 'search')") if regex else (lambda g: g == 'isinstance(self.until_marker, bytes)'))
     if entry is not None:
         # a locator chosen by _compile for this kind of marker is followed
@@ -427,7 +428,8 @@ def check_pack_and_ctor(ctx):
         if p.raises():
             continue
         st_ = [e for e in p.effects if e.kind == 'store_attr' and canon(e.obj) == 'self' and e.name == 'delimiter_to_be_included']
-        gt = gtexts(p)
+        from ..model import path_facts
+        gt = set(gtexts(p)) | set(path_facts(p))          # the conjuncts of compound tests are facts too
         label = 'Data.__init__ path [%s]' % '; '.join(sorted(g for g in gt if 'until_marker' in g or 'include_delimiter' in g))[:160]
         if not st_:
             ctx.violation(rule, init, label, 'delimiter_to_be_included is never initialised', init.node.lineno, clause='e')
